@@ -205,6 +205,32 @@ def _run(trace, log, stats):
                 raise Viol('C18/edit-still-equal', f'{what}: the edited copy is still equal to (or hashes like) the original')
             if g0 == e:
                 raise Viol('C18/edit-still-equal', f'{what}: the original is still equal to the edited copy')
+        # --- constraint chain: a graph that already has a constraint is copied and only the copy gains another one
+        from adsg_core.graph.adsg_basic import ChoiceConstraintType
+        from adsg_core.graph.adsg_nodes import SelectionChoiceNode
+        sel = sorted((n for n in g0.graph.nodes if isinstance(n, SelectionChoiceNode)), key=gen_dsg.label)
+        by_n = {}
+        for n in sel:
+            by_n.setdefault(len(g0.get_option_nodes(n)), []).append(n)
+        pairs = []
+        for v in by_n.values():
+            while len(v) >= 2:
+                pairs.append([v.pop(), v.pop()])
+        if len(pairs) >= 2:
+            ga = g0.copy()
+            ga.constrain_choices(ChoiceConstraintType.LINKED, pairs[0], remove_infeasible_choices=False)
+            ha, fa, pa = hash(ga), ga.fingerprint(), pickle.dumps(ga)
+            gb = ga.copy()
+            if not (gb == ga and hash(gb) == hash(ga)):
+                raise Viol('C18/copy-not-equal', 'a copy of a graph with a choice constraint is not equal to the original')
+            gb.constrain_choices(ChoiceConstraintType.LINKED, pairs[1], remove_infeasible_choices=False)
+            stats['constraint_chains'] += 1
+            if gb == ga or hash(gb) == hash(ga) or gb.is_same(ga):
+                raise Viol('C18/edit-still-equal', 'a second choice constraint was added to the copy only, but copy and '
+                                                   'original are still equal / hash alike / is_same')
+            if hash(ga) != ha or ga.fingerprint() != fa or not ga.is_same(pickle.loads(pa)):
+                raise Viol('C18/original-changed-by-edit-of-copy', 'adding a choice constraint to a copy changed the hash / '
+                                                                   'fingerprint of the original')
         # --- exports
         gml = g0.export_gml()
         import networkx as nx
@@ -277,6 +303,14 @@ def generate(seed, tier='quick', index=0):
     spec = gen_dsg.add_dv_metrics(rng, spec)
     if rng.random() < 0.25:
         spec = gen_dsg.add_conn_choice(rng, spec, p_group=0.0, max_side=2)
+    if rng.random() < 0.3:
+        # constraint-friendly: four further independent choices at the start node, pairwise with equal option counts
+        k0 = len(spec['nodes'])
+        for c in range(4):
+            n_opt = 2 if c < 2 else rng.choice([2, 3])
+            names = [f'N{100 + 10 * c + j}' for j in range(n_opt)]
+            spec['nodes'] += names
+            spec['sel'].append([f'K{c}', spec['start'][0], names])
     return {'property': PROPERTY, 'engine': ENGINE, 'seed': seed, 'spec': spec, 'ids_seed': s.int_seed('ids'),
             'peer_ids_seed': s.int_seed('ids-peer'), 'env_seed': s.int_seed('env'), 'vec_seed': s.int_seed('vec'),
             'edit_seed': s.int_seed('edit'), 'n_edits': 3}
